@@ -134,6 +134,14 @@ Section Hist.
     then fold_left (acc_sample c) (hi_vals i) data
     else data.
 
+  (* gatherVectorColvars: for iv = 0 .. colvar_array_size-1 the iv-th components of all the variables form one
+     sample, accumulated with weights[iv] (colvarbias_histogram::update, current_bin_scalar(i, iv)) *)
+  Fixpoint gather (vars : list (list T)) (weights : list T) : list (list T * T) :=
+    match weights with
+    | [] => []
+    | w :: ws => (map (fun v => hd (n0 O) v) vars, w) :: gather (map (@tl T) vars) ws
+    end.
+
   Definition hist_init (c : hist_cfg) : list T :=
     repeat (n0 O) (Z.to_nat (ntot 1 (h_nx c))).
 
